@@ -276,6 +276,13 @@ def run(ctx):
             combos.append(("datetime", y + m + d + r.choice(hours) + r.choice(mins) + r.choice(secs)))
     for h, mi, se in itertools.product(hours, mins, secs + [".5", "00.123"]):
         combos.append(("time", h + mi + se))
+    # fractions of a second belong to times only: a date or a timestamp followed by a point and digits is not one
+    for tail in (".5", ".250", ".0", ".", ".30", ".5.5"):
+        for base in ("20230225", "20230225094530", "202302250945", "2023022509"):
+            combos.append(("date", base + tail))
+            combos.append(("datetime", base + tail))
+        for base in ("0945", "094530", "09"):
+            combos.append(("time", base + tail))
     for n in range(0, 17):
         combos.append(("datetime", "2" * n))
         combos.append(("date", "1" * n))
@@ -592,6 +599,46 @@ def run(ctx):
     streams.append(index_operations_stream(ctx, r))
 
     # too many fields / components
+    # the occurrences of a repeated field may come from any iterable (an iterator, a generator, a map object): all of
+    # them are checked and stored like those of a list - none is skipped, a bad one is refused wherever it stands
+    oi = Stream("occurrences-from-iterators")
+    for module, letter, spec in schemaio.record_specs():
+        cls = schemaio.real_class(module, letter)
+        if cls is None:
+            continue
+        for f in spec["fields"]:
+            if f["shape"] != "repeated" or not f.get("sub"):
+                continue
+            k = len(f["sub"])
+            for _ in range(12 if ctx.thorough else 3):
+                occs = [schemaio.gen_component(r, f["sub"], force=True)[0] for _k in range(r.choice([1, 2, 3]))]
+                occs = [o for o in occs if o] or [["x"]]
+                bad_at = r.choice([None, None, 0, len(occs) - 1])
+                if bad_at is not None:
+                    occs[bad_at] = ["x"] * (k + 1)                       # too many components: refused
+                outs = {}
+                for form, mk in (("list", list), ("iterator", iter), ("generator", lambda x: (y for y in x)),
+                                 ("map", lambda x: map(list, x))):
+                    for route in ("constructor", "attribute"):
+                        try:
+                            if route == "constructor":
+                                rec = cls(**{f["name"]: mk(occs)})
+                            else:
+                                rec = cls()
+                                setattr(rec, f["name"], mk(occs))
+                            outs[(form, route)] = json.dumps(rec.to_dict().get(f["name"]), default=str)
+                        except Exception as e:  # noqa
+                            outs[(form, route)] = "refused " + type(e).__name__
+                case = {"module": module, "letter": letter, "field": f["name"], "occurrences": repr(occs)[:300]}
+                oi.case(case, nontrivial=bad_at is not None)
+                ref = outs[("list", "constructor")]
+                odd = [k_ for k_, v_ in outs.items() if v_ != ref]
+                if odd:
+                    oi.fail(dict(case, as_list=ref[:200], differs={"%s/%s" % k_: outs[k_][:200] for k_ in odd[:3]}),
+                            "the occurrences handed over as %s (%s) are not stored / refused like the same occurrences in a list"
+                            % odd[0], "occurrences-from-iterators/differs")
+    streams.append(oi)
+
     tm = Stream("too-many-values")
     for module, letter, spec in schemaio.record_specs():
         cls = schemaio.real_class(module, letter)
